@@ -1200,7 +1200,9 @@ struct ssl
     tlsExtension_t *userExt; /* User provided extensions from session options.
                                 Stored here for reuse in renegotiations and in
                                 responses to TLS 1.3 HRRs. */
-# if defined(USE_CLIENT_SIDE_SSL) && defined(ENABLE_SECURE_REHANDSHAKES)
+# ifdef USE_CLIENT_SIDE_SSL
+    /* The suites offered in our latest TLS <1.3 format ClientHello (NULL when
+       the default list was offered). */
     psCipher16_t *tlsClientCipherSuites;
     uint8_t tlsClientCipherSuitesLen;
 # endif
@@ -2204,6 +2206,9 @@ extern psRes_t chooseCipherSuite(ssl_t *ssl, unsigned char *listStart,
         int32 listLen);
 extern const sslCipherSpec_t *sslGetDefinedCipherSpec(uint16_t id);
 extern const sslCipherSpec_t *sslGetCipherSpec(const ssl_t *ssl, uint16_t id);
+# ifdef USE_CLIENT_SIDE_SSL
+extern psBool_t sslClientOfferedCipherSuite(const ssl_t *ssl, uint16_t id);
+# endif
 extern int32_t sslGetCipherSpecListLen(const ssl_t *ssl);
 extern int32_t sslGetCipherSpecList(ssl_t *ssl, unsigned char *c, int32 len,
                                     int32 addScsv);
